@@ -220,11 +220,13 @@ def show(term: Any, limit: int = 400) -> str:
 
 # ------------------------------------------------------------------ display-hook programs (C17)
 # val   := ('none',) ('ellipsis',) ('text', s) ('num', txt) ('html', s) ('reprHtml', s) ('tagRef', id) ('invalid',)
-# item  := ('text', s) ('html', s) ('robj', s) ('tagRef', id)
-# stmt  := ('d', val) | ('b', tag_id, [stmt...]) | ('r',)
+#          ('tagifiable', s) ('tagifiableRepr', s) ('tagList', [item...]) ('list', [val...]) ('tuple', [val...])
+# item  := ('text', s) ('html', s) ('robj', s) ('tagRef', id) ('tobj', s) ('trobj', s)
+# stmt  := ('d', val) | ('b', tag_id, [stmt...]) | ('r',) | ('k', tag_id)
 _HVAL0 = {"none": "vn", "ellipsis": "ve", "invalid": "vi"}
-_HVAL1 = {"text": "vt", "num": "vm", "html": "vh", "reprHtml": "vr"}
-_HITEM1 = {"text": "it", "html": "ih", "robj": "ir"}
+_HVAL1 = {"text": "vt", "num": "vm", "html": "vh", "reprHtml": "vr", "tagifiable": "vf", "tagifiableRepr": "vb"}
+_HVALSEQ = {"list": "vl", "tuple": "vu"}
+_HITEM1 = {"text": "it", "html": "ih", "robj": "ir", "tobj": "if", "trobj": "ib"}
 
 
 def ehval(v) -> str:
@@ -233,6 +235,10 @@ def ehval(v) -> str:
         return _HVAL0[k]
     if k == "tagRef":
         return "vg " + str(v[1])
+    if k == "tagList":
+        return "vq " + elist([ehitem(i) for i in v[1]])
+    if k in _HVALSEQ:
+        return _HVALSEQ[k] + " " + elist([ehval(x) for x in v[1]])
     return _HVAL1[k] + " " + es(v[1])
 
 
@@ -247,6 +253,8 @@ def ehprog(p) -> str:
         return "d " + ehval(p[1])
     if p[0] == "r":
         return "r"
+    if p[0] == "k":
+        return "k " + str(p[1])
     return "b " + str(p[1]) + " " + ehprogs(p[2])
 
 
@@ -261,6 +269,11 @@ def p_hval(t: Toks):
             return (name,)
     if k == "vg":
         return ("tagRef", int(t.next()))
+    if k == "vq":
+        return ("tagList", p_list(t, p_hitem))
+    for name, tok in _HVALSEQ.items():
+        if k == tok:
+            return (name, p_list(t, p_hval))
     for name, tok in _HVAL1.items():
         if k == tok:
             return (name, p_str(t))
@@ -283,9 +296,13 @@ def p_hprog(t: Toks):
         return ("d", p_hval(t))
     if k == "r":
         return ("r",)
+    if k == "k":
+        return ("k", int(t.next()))
     if k == "b":
         return ("b", int(t.next()), p_list(t, p_hprog))
     raise ValueError(f"bad hook statement {k}")
+
+
 # ------------------------------------------------------------------ C14: argument values, stored elements, child operations
 # arg    := ('none',) | ('num', 'i'|'f'|'b', txt) | ('node', node) | ('list', [arg]) | ('tuple', [arg]) | ('tl', [arg])
 #         | ('seq', 'bytes'|'range'|'set'|'dict'|'gen', [arg]) | ('bad', k)
